@@ -873,7 +873,8 @@ val rr_get_ttl : rr -> n option
 
 val rr_get_class : rr -> n option
 
-type est = { e_buf : bytes; e_idx : (name * (n * n)) list }
+type est = { e_buf : bytes; e_idx : (name * (n * n)) list;
+             e_names : (n * name) list }
 
 type 'a eres =
 | EOk of 'a * est
@@ -926,6 +927,8 @@ val elabel : label -> n eM
 val merge_index : (name * n) list -> n -> unit eM
 
 val enc_name_loop : name -> (name * n) list -> unit eM
+
+val log_name : name -> unit eM
 
 val enc_domain_name : name -> unit eM
 
